@@ -408,6 +408,24 @@ pub fn build<'src, I: HInput<'src>, E: HErr<'src, I>>(g: &G, cx: &Cx<'src, I, E>
         G::RecRetry(a, s, u) => b(a)
             .recover_with(skip_then_retry_until(b(s).ignored(), b(u).ignored()))
             .boxed(),
+        G::RecNd(a, s, e, others) => {
+            let ch = |t: u32| char::from_u32(t).unwrap_or('\u{fffd}');
+            let fb = |sp: Sp| Val::span(sp);
+            let (s, e) = (ch(*s), ch(*e));
+            let p = b(a);
+            match others.len() / 2 {
+                0 => p.recover_with(via_parser(nested_delimiters(s, e, [], fb))).boxed(),
+                1 => p.recover_with(via_parser(nested_delimiters(s, e, [(ch(others[0]), ch(others[1]))], fb))).boxed(),
+                _ => p
+                    .recover_with(via_parser(nested_delimiters(
+                        s,
+                        e,
+                        [(ch(others[0]), ch(others[1])), (ch(others[2]), ch(others[3]))],
+                        fb,
+                    )))
+                    .boxed(),
+            }
+        }
         G::Label(l, as_ctx, a) => {
             let p = b(a).labelled(format!("L{l}"));
             if *as_ctx {
